@@ -17,6 +17,7 @@ from __future__ import annotations
 import fcntl
 import importlib
 import pathlib
+import sys
 
 VERIF = pathlib.Path(__file__).resolve().parent.parent
 
@@ -24,7 +25,11 @@ VERIF = pathlib.Path(__file__).resolve().parent.parent
 def modules():
     out = []
     for p in sorted((VERIF / 'harness').glob('trans_*.py')):
-        out.append(importlib.import_module(f'harness.{p.stem}'))
+        try:
+            out.append(importlib.import_module(f'harness.{p.stem}'))
+        except Exception as e:  # noqa: BLE001 - one broken translator must not take the other properties' checks down
+            print(f'NOTE: translator {p.name} cannot be imported ({type(e).__name__}: {e}); its generated file is left as it is',
+                  file=sys.stderr)
     return out
 
 
@@ -44,10 +49,19 @@ def write_if_changed(out: pathlib.Path, text: str) -> bool:
 
 
 def regenerate() -> list:
-    """Regenerate every Gen/<Topic>.lean; returns the Lean module names."""
+    """Regenerate every Gen/<Topic>.lean; returns the Lean module names.  A translator that raises (it must not) has its
+    generated file replaced by one that defines nothing, so the theorems about its terms no longer build - a broken proof
+    obligation of the properties that rest on it, not an infrastructure failure of every check."""
     targets = []
     for m in modules():
-        write_if_changed(m.OUT, m.render())
+        try:
+            text = m.render()
+        except Exception as e:  # noqa: BLE001
+            msg = f'{type(e).__name__}: {e}'.replace('"', "'").replace('\\', '/').replace('\n', ' ')[:300]
+            print(f'NOTE: translator {m.__name__} raised ({msg}); its generated file now defines nothing', file=sys.stderr)
+            text = ('/- GENERATED: the translator raised, nothing could be translated. -/\n'
+                    f'def Ems.Gen.translatorFailed_{m.__name__.split(".")[-1]} : String := "{msg}"\n')
+        write_if_changed(m.OUT, text)
         targets.append(m.TARGET)
     return targets
 
